@@ -46,14 +46,15 @@ typedef struct {
 static Sui suites[MAXS]; static int nsuites;
 static Tst tests[MAXT]; static int ntests;
 static int logfd = -1;
-static char kill_test[256], kill_point[64], kill_how[32]; static int kill_nth = -1;
+static char kill_test[8192], kill_point[64], kill_how[32]; static int kill_nth = -1;
 static int point_seen = 0;
 static volatile intptr_t poked_global = 0;
 
 static void logev(const char *kind, const char *what) {
-    char buf[600];
+    static char buf[16384];
     int e = errno;
     int n = snprintf(buf, sizeof buf, "%d %s %s\n", (int)getpid(), kind, what);
+    if (n >= (int)sizeof buf) { n = sizeof buf - 1; buf[n - 1] = '\n'; }
     if (logfd >= 0) { ssize_t r = write(logfd, buf, n); (void)r; }
     errno = e;
 }
@@ -156,7 +157,7 @@ static void generic_body(void) { const char *n = crumb(); logev("body", n); Tst 
 
 /* suite-level fixtures need one function per suite: a pool */
 static void suite_fixture(int k, int teardown) {
-    char b[300];
+    static char b[16000];
     const char *n = crumb();
     snprintf(b, sizeof b, "%s %s", suites[k].name, n);
     logev(teardown ? "steardown" : "ssetup", b);
@@ -180,7 +181,7 @@ static void ctx_nothing(void) {}
 static void (*orig_finish_test)(TestReporter *, const char *, int, const char *);
 static void (*orig_finish_suite)(TestReporter *, const char *, int);
 static void probe_finish_test(TestReporter *r, const char *file, int line, const char *message) {
-    char b[400]; char name[256];
+    static char b[12000]; static char name[8192];
     int p = r->passes, f = r->failures, s = r->skips, e = r->exceptions;
     snprintf(name, sizeof name, "%s", crumb());
     (*orig_finish_test)(r, file, line, message);
@@ -188,7 +189,7 @@ static void probe_finish_test(TestReporter *r, const char *file, int line, const
     logev("tdone", b);
 }
 static void probe_finish_suite(TestReporter *r, const char *file, int line) {
-    char b[400]; char name[256];
+    static char b[12000]; static char name[8192];
     snprintf(name, sizeof name, "%s", crumb());
     (*orig_finish_suite)(r, file, line);
     snprintf(b, sizeof b, "%s %d %d %d %d %d %d %d %d %d", name, r->passes, r->failures, r->skips, r->exceptions,
@@ -202,7 +203,7 @@ int main(int argc, char **argv) {
     FILE *f = fopen(argv[1], "r");
     if (!f) { perror(argv[1]); return 98; }
     char *line = NULL; size_t cap = 0;
-    char reporter_kind[32] = "text", single[256] = ""; int run_single = 0;
+    char reporter_kind[32] = "text"; static char single[8192] = ""; int run_single = 0;
     int lineno = 0;
     while (getline(&line, &cap, f) > 0) {
         lineno++;
